@@ -220,6 +220,9 @@ type zipkinNDDecoderV2 struct {
 
 func (z *zipkinNDDecoderV2) Decode() error {
 	scanner := bufio.NewScanner(z.ctx.bodyReader)
+	// bufio.Scanner gives up on a line longer than its buffer limit (64 KiB by default): allow spans as large as
+	// the JSON-array decoder accepts in practice and report what still does not fit instead of dropping it
+	scanner.Buffer(make([]byte, 0, 64*1024), 16*1024*1024)
 	scanner.Split(bufio.ScanLines)
 	for scanner.Scan() {
 		// per-span state has to be cleared before every line, and the line kept as the stored payload,
@@ -238,6 +241,9 @@ func (z *zipkinNDDecoderV2) Decode() error {
 		if err != nil {
 			return custom_errors.NewUnmarshalError(err)
 		}
+	}
+	if err := scanner.Err(); err != nil {
+		return custom_errors.NewUnmarshalError(err)
 	}
 	return nil
 }
